@@ -231,5 +231,6 @@ func genExtra() {
 	genC10()
 	genC11()
 	genC20()
+	genC05()
 	genC02()
 }
